@@ -20,6 +20,7 @@ def evStr : Ev → String
   | .discard t => s!"discard:{t}"
   | .ret i rc f => s!"ret:{i}:{rcStr rc}:{b01 f}"
   | .block i => s!"block:{i}"
+  | .join i => s!"join:{i}"
   | .exit k => s!"exit:{k}"
   | .spawn k => s!"spawn:{k}"
   | .bcast q => if q then "bcast:q" else "bcast:w"
@@ -104,14 +105,22 @@ def drain : Nat → St → List Ev → St × List Ev
     | [] => (st, acc)
     | th :: _ => let (st', ev) := stepEv st (.step th 0); drain fuel st' (acc ++ ev)
 
+/-- run the enabled client threads (lowest index first) until none of them can move -/
+def settle : Nat → St → List Ev → St × List Ev
+  | 0, st, acc => (st, acc)
+  | fuel + 1, st, acc =>
+    match (enabledOf st).find? (fun th => match th with | .client _ => true | _ => false) with
+    | none => (st, acc)
+    | some th => let (st', ev) := stepEv st (.step th 0); settle fuel st' (acc ++ ev)
+
 def shutdownSeen : St → Bool
   | .none => true | .stw s => s.freed || s.shutdown | .tp s => s.freed || s.shutdown
 
 def clientsOf : St → List CPc
   | .none => [] | .stw s => s.clients | .tp s => s.clients
 
-/-- `finish`: a waiting shutdown from the first idle client (unless a shutdown is under way or pending), then drain -/
-def finish (st : St) : St × String :=
+def finishRound (st : St) (acc : List Ev) : St × List Ev :=
+  let (st, acc) := drain 200000 st acc
   let cl := clientsOf st
   let pending := cl.any fun c => match c with | .enter (.shutdown _) => true | _ => false
   let (st, ev0) :=
@@ -120,12 +129,21 @@ def finish (st : St) : St × String :=
       | some i => stepEv st (.call i (.shutdown true))
       | none => (st, [])
     else (st, [])
-  let (st, ev) := drain 200000 st ev0
+  drain 200000 st (acc ++ ev0)
+
+/-- `finish`: run the first enabled thread until none is left (calls under way complete), then a waiting shutdown
+    from the first idle client unless a shutdown was made already, and run to quiescence again -/
+def finish (st : St) : St × String :=
+  let (st, ev) := finishRound st []
   (st, s!"finish: {evsStr ev} | {stateStr st}")
 
 def step (st : St) (ws : List String) : St × String :=
   match ws with
   | ["finish"] => match st with | .none => (st, "no-executor") | _ => finish st
+  | ["settle"] =>
+    match st with
+    | .none => (st, "no-executor")
+    | _ => let (st, ev) := settle 200000 st []; (st, s!"settle: {evsStr ev} | {stateStr st}")
   | ["new", "stw", limit, blocking, cb, ncl] =>
     let s := Stw.init (natArg limit) (blocking == "1") (cb == "1") (natArg ncl)
     (.stw s, s!"new | {stwState s}")
